@@ -1,13 +1,35 @@
 ------------------------------ MODULE FitCases ------------------------------
 (* C03 - the discrete configuration space of a fit, enumerated by TLC and   *)
 (* replayed into Nasa/Nasa9/Shomate.from_data / from_model.                  *)
+(*                                                                           *)
+(* Cases     = the cross product that is run IN FULL in every tier           *)
+(*             (family x source x segments x T_ref position x T_mid form x   *)
+(*             route).                                                       *)
+(* Axes      = the further dimensions of the quantifier (round 5 audit): the *)
+(*             window class, the number of data temperatures, the order and  *)
+(*             container of the data, the container of T_mid, the form of    *)
+(*             the model argument, fit_T_mid.  They are too many for a full  *)
+(*             product, so every case carries the list of values ADMISSIBLE  *)
+(*             for it (decided here) and the driver rotates through each     *)
+(*             list; it refuses to finish (exit 2) unless every admissible   *)
+(*             (family, route, axis, value) was exercised in the run.        *)
+(* Narrow readings (where the property text / docstrings are silent):        *)
+(*   - NASA-7 from_data takes T as a numpy array (documented type; a Python  *)
+(*     list raises TypeError in `T <= T_mid`): no "pylist" container there;  *)
+(*   - NASA-9 break lists are ascending (a descending list raises);          *)
+(*   - from_statmech is a documented refusal (RuntimeError since 1.2.13);    *)
+(*   - non-ascending / duplicated data only where the data are given         *)
+(*     (from_data); from_model builds its own ascending grid.                *)
 EXTENDS Integers, Sequences, FiniteSets, TLC, Json, IOUtils, SequencesExt
 
 Fams == {"nasa7", "nasa9", "shomate"}
 Srcs == {"poly", "piecewise", "statmech_gas", "statmech_ads", "const", "zero"}
-TrefPos == {"first", "break", "middle", "last", "low_edge", "high_edge", "lib"}
+\* below_break / above_break: one part in 1e9 next to a break; grid: exactly on a data temperature
+TrefPos == {"first", "break", "below_break", "above_break", "middle", "last", "low_edge", "high_edge", "grid", "lib"}
 TmidForms == {"none", "scalar", "list"}
 Routes == {"data", "model"}
+
+AtBreak == {"break", "below_break", "above_break"}
 
 Applicable(c) ==
    /\ (c.fam = "shomate" => c.nseg = 1 /\ c.tmid = "none" /\ c.src # "piecewise")
@@ -15,13 +37,58 @@ Applicable(c) ==
    /\ (c.fam = "nasa9" => /\ (c.tmid = "none" => c.nseg = 1)
                           /\ (c.tmid = "scalar" => c.nseg = 2)
                           /\ (c.src = "piecewise" => c.nseg >= 2))
-   /\ (c.route = "model" => c.src \in {"statmech_gas", "statmech_ads", "poly"} /\ c.tref = "lib"
-                            /\ (c.fam = "nasa9" => c.tmid # "scalar"))
+   \* every source except a piecewise one can be a model (constant and zero Cp included)
+   /\ (c.route = "model" => c.src # "piecewise" /\ c.tref = "lib")
    /\ (c.route = "data" => c.tref # "lib")
-   /\ (c.tref = "break" => c.nseg >= 2 /\ c.tmid # "none")
+   /\ (c.tref \in AtBreak => c.nseg >= 2 /\ c.tmid # "none")
    /\ (c.tref = "middle" => c.nseg = 3)
    /\ (c.tref = "last" => c.nseg >= 2)
-Cases == {c \in [fam : Fams, src : Srcs, nseg : 1..3, tref : TrefPos, tmid : TmidForms, route : Routes] : Applicable(c)}
+Base == {c \in [fam : Fams, src : Srcs, nseg : 1..3, tref : TrefPos, tmid : TmidForms, route : Routes] : Applicable(c)}
+
+\* ---- rotating axes
+Wins == {"full", "wide", "narrow", "tiny", "low_end", "high_end", "high_only"}
+Nts == {"15", "16", "mid", "199", "200"}
+Orders == {"asc", "desc", "shuffled", "dup"}
+Conts == {"ndarray", "int", "listCp", "pylist"}
+TmForms == {"a", "b", "c"}      \* scalar: float / int / numpy.float64; list: list / tuple / ndarray; none: None / [] / empty ndarray
+MForms == {"object", "class", "attrs"}
+Fits == {"fit", "nofit"}
+Grids == {"uniform", "per_interval"}
+RefTypes == {"float", "np", "int"}     \* T_ref / HoRT_ref / SoR_ref as Python floats, numpy scalars, T_ref as an int
+
+WinOK(c, w) == TRUE
+NtOK(c, n) == TRUE
+OrderOK(c, o) == c.route = "data" \/ o = "asc"
+ContOK(c, k) == /\ (c.route = "model" => k = "ndarray")
+                /\ (k = "pylist" => c.fam # "nasa7")
+TmFormOK(c, f) == IF c.fam = "shomate" THEN f = "a"
+                  ELSE IF c.fam = "nasa7" /\ c.tmid = "none" THEN f = "a"
+                  ELSE IF c.fam = "nasa9" /\ c.route = "model" /\ c.tmid = "none" THEN f = "a"
+                  ELSE TRUE
+\* a class can only be passed for StatMech sources; name / T_low / T_high / elements can be left to the model's
+\* attributes in Nasa.from_model and Shomate.from_model only (Nasa9.from_model requires them)
+MFormOK(c, m) == IF c.route = "data" THEN m = "object"
+                 ELSE /\ (m = "class" => c.src \in {"statmech_gas", "statmech_ads", "const", "zero"})
+                      /\ (m = "attrs" => c.fam # "nasa9")
+\* fit_T_mid (Nasa9.from_model only): T_mid = None needs the search; a given T_mid is either kept or used as the
+\* starting guess of the search
+FitOK(c, f) == IF c.fam = "nasa9" /\ c.route = "model" /\ c.tmid # "none" THEN TRUE ELSE f = "fit"
+GridOK(c, g) == IF c.fam = "nasa9" /\ c.route = "data" THEN TRUE ELSE g = "uniform"
+\* an int reference temperature needs a position that can be moved onto an integer
+RefTypeOK(c, r) == IF c.route = "model" THEN r = "float" ELSE (r = "int" => c.tref \in {"first", "middle", "last"})
+
+Pick(S, P(_)) == SetToSeq({v \in S : P(v)})
+Case(c) == c @@ [wins |-> Pick(Wins, LAMBDA v : WinOK(c, v)),
+                 nts |-> Pick(Nts, LAMBDA v : NtOK(c, v)),
+                 orders |-> Pick(Orders, LAMBDA v : OrderOK(c, v)),
+                 conts |-> Pick(Conts, LAMBDA v : ContOK(c, v)),
+                 tmforms |-> Pick(TmForms, LAMBDA v : TmFormOK(c, v)),
+                 mforms |-> Pick(MForms, LAMBDA v : MFormOK(c, v)),
+                 fits |-> Pick(Fits, LAMBDA v : FitOK(c, v)),
+                 grids |-> Pick(Grids, LAMBDA v : GridOK(c, v)),
+                 refts |-> Pick(RefTypes, LAMBDA v : RefTypeOK(c, v))]
+Cases == {Case(c) : c \in Base}
+ASSUME \A c \in Cases : \A k \in {"wins", "nts", "orders", "conts", "tmforms", "mforms", "fits", "grids", "refts"} : Len(c[k]) >= 1
 ASSUME IF "OUT_FILE" \in DOMAIN IOEnv THEN JsonSerialize(IOEnv.OUT_FILE, SetToSeq(Cases)) ELSE TRUE
 VARIABLE x
 Init == x = 0
